@@ -305,6 +305,8 @@ func main() {
 	quota := flag.Int("quota", 8, "fault plans per history when sampling (guided mode: budget of runs per history)")
 	guided := flag.Bool("guided", false, "coverage-guided plans: every fault target of every twin, every target of a repair path as second fault")
 	mult := flag.Int("mult", 2, "guided mode: histories every target is faulted in (reduced when the budget does not allow it)")
+	mult2 := flag.Int("mult2", 0, "guided mode: the same for the second-fault targets of repair paths (0: as -mult)")
+	legacy := flag.Int("legacy", 3, "guided mode: sampled index-rule plans per history (the two commit plans first)")
 	only := flag.String("only", "", "replay one faulted run: <plan>[/r]")
 	flag.Parse()
 	cfsim.HoldBackground = true
@@ -314,7 +316,10 @@ func main() {
 		return
 	}
 	if *guided && !*worker {
-		os.Exit(runMaster(*count, *first, *workers, *outPath, *quota, *mult))
+		if *mult2 <= 0 {
+			*mult2 = *mult
+		}
+		os.Exit(runMaster(*count, *first, *workers, *outPath, *quota, *mult, *mult2, *legacy))
 	}
 	if !*worker {
 		if err := hist.ParallelSelf(*count, *first, *workers, *outPath, os.Args[1:]); err != nil {
